@@ -368,4 +368,60 @@ theorem renamed_congr {l r : LazyView ν α} (h : l.Equiv r) (names : List ν)
   rw [withNames_length _ _ hl] at hlen
   exact hg idx hlen
 
+/-! ### reorder and transpose -/
+
+theorem TView.reorder_eq [Inhabited ν] (v : TView ν α) (hv : v.lazy.Valid)
+    (names : List ν) :
+    v.reorder names =
+      if IsOrdering v.shape names then .ok (Tensor.ofVal (materialise (reordered v.lazy names)))
+      else .panic .explicit := by
+  unfold TView.reorder
+  by_cases hp : IsOrdering v.shape names
+  · obtain ⟨a, ha, hl⟩ := v.access_of_ordering names hv.shape.1 hp
+    have hav : a.lazy.Valid := hl ▸ reordered_valid hv names hp
+    simp only [ha, hp, if_true]
+    rw [a.iter_eq]
+    have := hav.fromOrPanic
+    simp only [TView.lazy_shape] at this
+    rw [this, hl]
+  · simp only [v.access_none names hv.shape.1 hp, hp, if_false]
+
+theorem TView.transpose_eq [Inhabited ν] (v : TView ν α) (hv : v.lazy.Valid)
+    (names : List ν) :
+    v.transpose names =
+      if IsOrdering v.shape names then .ok (Tensor.ofVal (materialise (transposed v.lazy names)))
+      else .panic .explicit := by
+  unfold TView.transpose
+  rw [v.reorder_eq hv names]
+  by_cases hp : IsOrdering v.shape names
+  · simp only [hp, if_true]
+    have hlen' : names.length = v.shape.length := by simpa using hp.length_eq
+    have hl : (v.shape.map (·.1)).length = (shapeFor v.shape names).length := by
+      simp [shapeFor_length, hlen']
+    congr 1
+    simp only [Tensor.ofVal, materialise, transposed, reordered, TView.lazy_shape,
+      setNames_eq_withNames, TView.lazy_get]
+    rw [withNames_map_snd _ _ hl]
+    congr 1
+    exact computeStrides_congr _ _ (withNames_map_snd _ _ hl).symm
+  · simp only [hp, if_false]
+
+theorem Tensor.reorder_eq_ofData [Inhabited ν] (shape : Shape ν) (data : List α) (t : Tensor ν α)
+    (ht : Tensor.tryFrom shape data = some t) (names : List ν) :
+    t.reorder names =
+      (if IsOrdering shape names then
+        .ok (Tensor.ofVal (materialise (reordered (ofData shape data) names)))
+       else .panic .explicit) ∧
+    t.transpose names =
+      (if IsOrdering shape names then
+        .ok (Tensor.ofVal (materialise (transposed (ofData shape data) names)))
+       else .panic .explicit) := by
+  have hv := view_valid shape data t ht
+  have he := view_equiv_ofData shape data t ht
+  have hs : t.view.shape = shape := he.1
+  unfold Tensor.reorder Tensor.transpose
+  rw [TView.reorder_eq _ hv, TView.transpose_eq _ hv, hs,
+    materialise_congr (reordered_congr he names), materialise_congr (transposed_congr he names)]
+  exact ⟨rfl, rfl⟩
+
 end EasyMl
